@@ -82,10 +82,12 @@ def r2_allocation(ctx):
             return "L"
         if isinstance(e, ast.Call) and astx.u(e.func) == "sum" and e.args:
             a = e.args[0]
+            exact_entries = False
             if isinstance(a, (ast.GeneratorExp, ast.ListComp)) and len(a.generators) == 1 and not a.generators[0].ifs:
                 el = a.elt
                 if isinstance(el, ast.Call) and astx.u(el.func) == "Fraction" and len(el.args) == 1:
                     el = el.args[0]
+                    exact_entries = True
                 if astx.is_name(el, getattr(a.generators[0].target, "id", None)):
                     a = a.generators[0].iter
             if isinstance(a, ast.Name):
@@ -96,7 +98,9 @@ def r2_allocation(ctx):
                 lo = Nk.key(a.slice.lower) if a.slice.lower is not None else "0"
                 hi = Nk.key(a.slice.upper) if a.slice.upper is not None else "?"
                 if lo == idx and hi in (f"{idx} + L", f"L + {idx}") and a.slice.step is None:
-                    return "S"
+                    # exact only when every entry is converted before summing (float entries are
+                    # otherwise added in floating point and the rounded sum is then made a Fraction)
+                    return "S" if exact_entries else "S_summed_before_conversion"
                 return f"sum(vector[{lo}:{hi}])"
         return None
     N = Normalizer(f.node, inline=True, rename=rename, int_atoms=lambda a: a == "L")
@@ -315,6 +319,14 @@ def r6_top_m(ctx):
                         why.append(f"remaining={astx.u(kw.get('remaining'))}")
                 ctx.check(oks, f, st, f"{f.cls.name}: component 0 -> elected=, component 1 -> remaining=", f"({e0}, {e1}, {e2})",
                           f"selector components are recorded as {why}")
+    # replaying the single round must not record again (shared with C09.R2)
+    from rules import c09
+    sub = type(ctx)(prog, ctx.prop, ctx.tier)
+    c09.r2_writes_guarded(sub)
+    for o in sub.obs:
+        if any(o.function.endswith(x) for x in ("Plurality._run_step", "Borda._run_step")):
+            o.rule = "C04.R6"
+            ctx.obs.append(o)
     if n < 4:
         ctx.vanished("top-m selector call sites" + ": " + f"only {n} single-round rules select through elect_cands_from_set_ranking")
     # inside the selector: groups are taken from index 0 upward
@@ -389,6 +401,9 @@ FAULTS = [
     ("sort by (score, names)", [(UT, "score_to_cand.items(), key=lambda x: x[0], reverse=sort_high_low", "score_to_cand.items(), key=lambda x: (x[0], x[1]), reverse=sort_high_low")], "C04.R5"),
     ("negative check loosened", [(UT, "        if score < 0:\n            raise ValueError(\"Score vector must be non-negative.\")", "        if score < -1:\n            raise ValueError(\"Score vector must be non-negative.\")")], "C04.R7"),
     ("increase check >=", [(UT, "            if score > score_vector[i - 1]:", "            if score >= score_vector[i - 1]:")], "C04.R7"),
+    ("sum of raw entries then Fraction", [(UT, "allocation = sum(Fraction(x) for x in local_score_vector) / position_size", "allocation = Fraction(sum(local_score_vector)) / position_size")], "C04.R2"),
+    ("borda step records by default", [("src/votekit/elections/election_types/ranking/borda.py", "        self, profile: PreferenceProfile, prev_state: ElectionState, store_states=False", "        self, profile: PreferenceProfile, prev_state: ElectionState, store_states=True")], "C04.R6"),
+    ("borda vector over cast candidates", [(UT, "    score_vector = list(range(len(profile.candidates), 0, -1))\n\n    return score_profile_from_rankings", "    score_vector = list(range(len(profile.candidates_cast), 0, -1))\n\n    return score_profile_from_rankings")], "C04.R3"),
     ("plurality records groups swapped", [("src/votekit/elections/election_types/ranking/plurality.py", "                remaining=remaining,\n                elected=elected,", "                remaining=elected,\n                elected=remaining,")], "C04.R6"),
     ("borda elects from the bottom", [("src/votekit/elections/election_types/ranking/borda.py", "super().__init__(profile, score_function=score_function, sort_high_low=True)", "super().__init__(profile, score_function=score_function, sort_high_low=False)")], "C04.R5"),
 ]
